@@ -510,6 +510,10 @@ func (d *Driver) isolate(cur *curRec, code int) *ViolationRec {
 		}
 		d.mu.Lock()
 		d.Merged.Counters["slow_cases_rerun_alone"]++
+		if ec == 0 {
+			// (the case was abandoned by its shard before it had a verdict)
+			d.Merged.Verdicts["held"]++
+		}
 		d.mu.Unlock()
 		return nil
 	case <-time.After(10 * time.Minute):
